@@ -368,7 +368,8 @@ func checkFormat(ct *jsonx.CTree, how int, layout []jsonx.LayoutTok, full bool) 
 			if err != nil {
 				return fmt.Errorf("String() after a nested change is not valid JSON: %v", err)
 			}
-			for _, n := range []int{2, 7, 0} {
+			// first the very indent of the last call before the change, then others, then it again
+			for _, n := range []int{7, 2, 2, 0, 7} {
 				f := jsonx.Format(c, n)
 				fs, err := jsonx.StrictParse(f)
 				if err != nil {
